@@ -9,6 +9,7 @@ also = []
 if "--also" in sys.argv:
     also = sys.argv[sys.argv.index("--also") + 1].split(",")
 only_also = "--only-also" in sys.argv
+recheck = "--recheck" in sys.argv  # run again exactly the checks that are recorded as detecting (plus the own one)
 def run(cmd, env=None):
     e = dict(os.environ); e.update(env or {})
     p = subprocess.run(cmd, shell=True, capture_output=True, text=True, env=e)
@@ -23,7 +24,11 @@ for d in sorted(glob.glob(f"{ROOT}/seeded/*{pat}*/")):
     if rc:
         print(d, "patch does not apply"); continue
     res = [r for r in meta.get("detected_by", []) if r.get("check") == pid] if only_also else []
-    for cid in (also if only_also else [pid] + also):
+    checks = also if only_also else [pid] + also
+    if recheck:
+        checks = [pid] + [r["check"] for r in meta.get("detected_by", []) if not r.get("missed") and not r.get("error") and r.get("check") != pid]
+        res = []
+    for cid in checks:
         for tier in ["quick", "thorough"]:
             rc, out = run(f"{ROOT}/check {cid} {tier}", {"VERIF_NO_EVIDENCE": "1", "VERIF_REPLAY_DIR": f"{ROOT}/sim/target/seed-replays"})
             if rc == 1:
